@@ -265,7 +265,7 @@ func (e *Exec) modelMethod(mo *ModelObj, name string, args []Value) Value {
 	case "ctx":
 		switch name {
 		case "EventManager":
-			return &PtrV{c: &Cell{v: &ModelObj{kind: "eventmanager", env: mo.env}}}
+			return &IfaceV{t: modelDynType, v: &ModelObj{kind: "eventmanager", env: mo.env}}
 		case "Value", "Deadline", "Done", "Err":
 			e.fail("context method %s", name)
 		case "Logger":
